@@ -111,7 +111,8 @@ def r171_172(ctx):
     if okc:
         c = cbs[0]
         cl = loops[c.loops[2]]
-        okc = A.eq(cl.data["iter"], A.at(t, "self.callbacks_")) and c.data["fterm"] is cl.data["elem"] \
+        okc = any(A.eq(cl.data["iter"], A.at(t, f_)) for f_ in ("self.callbacks_", "self.callbacks_ or []", "self.callbacks_ or ()")) \
+            and c.data["fterm"] is cl.data["elem"] \
             and kw(c, "step") is n_now and arg(c, 0) is r.self_term and bool(maxret) and c.seq > maxret[0].seq \
             and any(l is A.C.canon(l) or True for l in c.pc)
         # callbacks are skipped on the iteration that exhausts max_iter: pc carries the negated stop test
